@@ -56,6 +56,10 @@ package dispatch
 //@   ensures [shape] result != nil && fresh(result) && len(result) == len(croutes)
 //@   ensures [children] forall i int :: 0 <= i && i < len(result) ==> result[i] != nil && fresh(result[i]) && result[i].parent == parent
 //@   ensures [parent-untouched] parent != nil ==> parent.RouteOpts == old(parent.RouteOpts)
+//@   ensures [indices-distinct-and-new] deref(counter) >= old(deref(counter)) && (forall i int :: 0 <= i && i < len(result) ==> old(deref(counter)) <= result[i].Idx && result[i].Idx < deref(counter))
+//@             && (forall i int, j int :: 0 <= i && i < j && j < len(result) ==> result[i].Idx < result[j].Idx)
+//@   loop 1 invariant deref(counter) >= old(deref(counter)) && (forall i int :: 0 <= i && i < len(res) ==> old(deref(counter)) <= res[i].Idx && res[i].Idx < deref(counter))
+//@   loop 1 invariant forall i int, j int :: 0 <= i && i < j && j < len(res) ==> res[i].Idx < res[j].Idx
 //@   loop 1 invariant rangeindex < len(croutes) && fresh(res) && len(res) == rangeindex + 1
 //@   loop 1 invariant forall i int :: 0 <= i && i < len(res) ==> res[i] != nil && fresh(res[i]) && res[i].parent == parent
 //@   loop 1 invariant parent != nil ==> parent.RouteOpts == old(parent.RouteOpts)
@@ -80,6 +84,8 @@ package dispatch
 //@   ensures [labels-child-wins] len(cr.Labels) != 0 ==> (forall ln model.LabelName :: ln in cr.Labels ==> result.RouteOpts.Labels[ln] == cr.Labels[ln])
 //@   ensures [labels-parent-kept] len(cr.Labels) != 0 ==> (forall ln model.LabelName :: !(ln in cr.Labels) && old(ln in inheritedOpts(parent).Labels) ==> result.RouteOpts.Labels[ln] == old(inheritedOpts(parent).Labels[ln]))
 //@   ensures [parent-untouched] parent != nil ==> parent.RouteOpts == old(parent.RouteOpts)
+//@   ensures [own-index-is-new] result.Idx == deref(counter) - 1 && result.Idx >= old(deref(counter))
+//@   ensures [children-indexed-before] forall i int :: 0 <= i && i < len(result.Routes) ==> old(deref(counter)) <= result.Routes[i].Idx && result.Routes[i].Idx < result.Idx
 //@   ensures [matchers-of-all-three-kinds] len(result.Matchers) == len(cr.Match) + len(cr.MatchRE) + len(cr.Matchers)
 //@   ensures [new-style-matchers-kept] forall i int :: 0 <= i && i < len(cr.Matchers) ==> cr.Matchers[i] in elems(result.Matchers)
 //@   ensures [time-intervals-of-the-route] result.RouteOpts.MuteTimeIntervals == cr.MuteTimeIntervals && result.RouteOpts.ActiveTimeIntervals == cr.ActiveTimeIntervals
